@@ -2,10 +2,10 @@
 Props/C05_Aac.lean — C05 / C04 statements for AAC ADTS / ADIF (mutagen/aac.py `AACInfo`).
 Layout: Spec/Info/Aac.lean (ADTS header), parser: Model/Info/Aac.lean, frequency table: Generated/Tables.lean.
 
-The ADIF header has no specification side yet (model and totality only).
 -/
 import MutagenModel.Proofs.Info.Aac
 import MutagenModel.Proofs.Info.AacLong
+import MutagenModel.Proofs.Info.Adif
 set_option linter.unusedVariables false
 namespace Mutagen.C05
 open Mutagen Mutagen.Info Mutagen.Info.Aac Mutagen.Spec.Aac
@@ -48,6 +48,37 @@ their bytes to the file size N (`Spec.Aac.expectedFirst100`); for a constant-bit
 theorem aac_adts_info_decodes_long_partial (h : Adts) (ok : h.OK) (hcc : h.chanConfig ≠ 0) (hlong : 100 < h.frames.length) :
     parse (build h) = .ok (expectedFirst100 h) :=
   parse_adts_long h ok hlong
+
+/-- C05 for AAC ADIF: for EVERY adif_header the specification allows — optional 72-bit copyright id, original / home bits,
+bitstream type, 23-bit bit rate, buffer fullness, and 1..16 program config elements each with any instance tag, object
+type, one of the 13 sampling frequencies, up to 15 front / side / back elements (single or pair, any tag), up to 3 LFE, 7
+associated-data and 15 coupling elements, optional mono / stereo / matrix mixdown fields, byte alignment and up to 255
+comment bytes — followed by any payload, `AACInfo` reports the sampling frequency and the channel count (1 per single
+element, 2 per pair, 1 per LFE) of the FIRST program config element, the bit rate field, and as `length` its documented
+guess `8 · (bytes behind the header) / bitrate` — PROVIDED the stream is variable-rate or has a single program config
+element: for constant-rate streams the standard puts adif_buffer_fullness in front of EVERY program config element,
+mutagen skips it only in front of the first (`adif_cbr_second_pce_misread`). -/
+theorem aac_adif_info_decodes_partial (h : Adif) (ok : h.OK) (hyp : h.bitstreamType = 1 ∨ h.more = []) :
+    parse h.build = .ok h.expected :=
+  parse_adif h ok hyp
+
+/-- a program config element read through the bit reader, for all values (any position, anything behind it) -/
+theorem aac_pce_decodes (f : Bytes) (r : R) (p : Pce) (ok : p.OK) (rest : List Bool) (h : At f r (p.bits r.pos ++ rest)) :
+    parsePce f r = some (p.sfIndex, p.channels, ⟨r.start, r.pos + (p.bits r.pos).length⟩) :=
+  (pce_at f r p ok rest h).1
+
+/-- a constant-rate 128 kbit/s ADIF header with two stereo program config elements (44.1 and 48 kHz) and 50 payload bytes -/
+def adifCbr2 : Adif :=
+  ⟨none, 0, 0, 0, 128000, 0xFFFFF, ⟨0, 1, 4, [⟨1, 0⟩], [], [], [], [], [], none, none, none, []⟩,
+    [(0xFFFFF, ⟨0, 1, 3, [⟨1, 0⟩], [], [], [], [], [], none, none, none, []⟩)], List.replicate 50 0x21⟩
+
+/-- NEW finding: the second element's buffer fullness (20 one-bits) is parsed as the start of a program config element
+with 15+15+15 channel elements; the reader ends 11 bytes behind the end of the file and the guess is negative.
+Repro: `AAC(io.BytesIO(bytes.fromhex("41444946003e8003ffffe0a08000040000fffff04c4000020000" + "21"*50))).info.length` = -88/128000
+(the header encodes 400 payload bits: 400/128000). -/
+theorem adif_cbr_second_pce_misread :
+    adifCbr2.OK ∧ adifCbr2.expected.length = ⟨400, 128000⟩ ∧
+    parse adifCbr2.build = .ok { adifCbr2.expected with length := ⟨-88, 128000⟩ } := by decide +kernel
 
 /-- a stream of four 44100 Hz stereo frames (MPEG-4 LC, no CRC) of 16, 17, 18, 19 bytes -/
 def adtsSample : Adts :=
